@@ -278,6 +278,9 @@ func planC11(tier string, root *simcore.RNG) *plan {
 					j.CloseAt = append(j.CloseAt, 1+r.Intn(nb-1))
 				}
 			}
+			if j.Sink != "tri" && r.Intn(4) == 0 {
+				j.Pre = pick(r, []int{1, 84, 5000, 300000})
+			}
 			sc.Groups = [][]Job{{j}}
 			sc.Sites = activeSites(r, j.Sink, false)
 			sc.Sched = genSched(r, victims)
